@@ -13,6 +13,8 @@ Definition ok_or_space (b : N) : Prop := 32 <= b /\ b <= 126.
 
 Lemma ok_byte_or_space b : ok_byte b -> ok_or_space b.
 Proof. unfold ok_byte, ok_or_space. lia. Qed.
+Lemma ok_or_space_32 : ok_or_space 32.
+Proof. unfold ok_or_space. lia. Qed.
 Lemma ok_or_space_iff b : ok_or_space b <-> ok_byte b \/ b = 32.
 Proof. unfold ok_byte, ok_or_space. lia. Qed.
 
